@@ -159,8 +159,8 @@ pub fn gen_pairs(seed: u64, tier: &str, salt: u64) -> Vec<Pair> {
         }
         blen = blen.min(cap);
         let bkind = r.below(6);
-        let basis = gen_basis(&mut r, bkind, blen, bs);
-        let skind = r.below(9);
+        let mut basis = gen_basis(&mut r, bkind, blen, bs);
+        let skind = r.below(10);
         let (src, sclass): (Vec<u8>, &str) = match skind {
             0 => (basis.clone(), "identical"),
             1 | 2 | 3 => {
@@ -222,6 +222,36 @@ pub fn gen_pairs(seed: u64, tier: &str, salt: u64) -> Vec<Pair> {
                 (r.bytes(n2.min(60_000)), "unrelated")
             }
             7 => (vec![], "empty-src"),
+            8 => {
+                // the BASIS holds two or three different blocks with one weak checksum (a bucket with several members,
+                // the original at the lowest index); the source uses the later members, in another order
+                let nb = blen / bs.max(1);
+                let mut twins: Vec<usize> = vec![];
+                if nb >= 2 {
+                    let i = r.below(nb as u64 - 1) as usize;
+                    let orig = basis[i * bs..(i + 1) * bs].to_vec();
+                    let mut prev = orig.clone();
+                    let ntw = 1 + r.below(2) as usize;
+                    for j in (i + 1..nb).take(ntw) {
+                        if let Some(c) = weak_collide(&prev, &mut r) {
+                            if c != orig {
+                                basis[j * bs..(j + 1) * bs].copy_from_slice(&c);
+                                twins.push(j);
+                                prev = c;
+                            }
+                        }
+                    }
+                    twins.insert(0, i);
+                }
+                let npre = r.below(40) as usize;
+                let mut s = r.bytes(npre);
+                for &j in twins.iter().rev() {
+                    s.extend_from_slice(&basis[j * bs..(j + 1) * bs]);
+                }
+                let tail_from = r.below(blen as u64 + 1) as usize;
+                s.extend_from_slice(&basis[tail_from..]);
+                (s, "weak-collision-in-basis")
+            }
             _ => {
                 // several edits
                 let mut s = basis.clone();
